@@ -53,6 +53,18 @@ func c18PushBehaviour(c *core.Ctx, lfsBin string, b *behaviour, idx int) (*apiRu
 	defer w.Close()
 	w.Srv.ActionHdr = map[string]string{"X-Verif-Token": fmt.Sprintf("t%d", idx)}
 	w.Srv.ExpiresIn = 3600
+	// which headers the upload action carries, and whether the client's own Content-Type detection is on:
+	// a header the action offers is sent as offered whatever the client would have chosen itself
+	switch idx % 4 {
+	case 1:
+		w.Srv.UploadHdr = map[string]string{"Content-Type": "application/x-verif-object"}
+	case 2:
+		w.Srv.UploadHdr = map[string]string{"Content-Type": "application/x-verif-object"}
+		w.Env.Git(w.Clone, "config", "lfs.contenttype", "false")
+	case 3:
+		w.Srv.UploadHdr = map[string]string{"content-type": "application/x-verif-object"}
+		w.Env.Git(w.Clone, "config", "lfs."+w.Srv.URL+".contenttype", "false")
+	}
 	for i, s := range b.steps {
 		handled, err := applyRepoStep(w, s)
 		if err != nil {
